@@ -697,7 +697,7 @@ def diag(input):
     if input.is_ttm:
         return torchtt._tt_base.TT([tn.diagonal(c, dim1=1, dim2=2).permute([0, 2, 1]) for c in input.cores])
     else:
-        return torchtt._tt_base.TT([tn.einsum('ijk,jm->ijmk', c, tn.eye(c.shape[1])) for c in input.cores])
+        return torchtt._tt_base.TT([tn.einsum('ijk,jm->ijmk', c, tn.eye(c.shape[1], dtype=c.dtype, device=c.device)) for c in input.cores])
 
 
 def permute(input, dims, eps=1e-12):
